@@ -347,7 +347,7 @@ def r4_illegal_function(ck, cx):
         ck.ob('R4', me.qn, '%s = %d' % (name, val), got == val, detail='exception-constant %s=%r' % (name, got), loc=me.loc)
     de = cx.method(cx.idx.cls('pymodbus.pdu.ModbusRequest'), 'doException')
     okd = False
-    for p in cx.enum(de, de.cls, max_depth=0):
+    for p in cx.enum(de, de.cls, max_depth=2):      # a private builder method called by doException is part of it
         annotate(p)
         r = ret_expr(p)
         okd = isinstance(r, ast.Call) and callee_name(r) == 'ExceptionResponse' and len(r.args) == 2 and \
